@@ -234,6 +234,8 @@ struct mon {
 	time_t t_success;
 	time_t t_last_choice; /* clock at the last choice point (open / query / wait in ESTABLISHED) */
 	bool open_just_failed; /* the previous open() failed and the client has not slept since */
+	bool send_just_failed; /* the previous query could not be sent and the client has not slept since */
+	time_t t_send_failed;
 	bool expect_reset_on_this_conn; /* set at open() when expired */
 	bool first_query_of_conn;
 	/* C13 */
@@ -933,8 +935,16 @@ static int hook_send(const void *buf, size_t len, time_t timeout)
 		if (c < 0)
 			env_end_run(PARK_HORIZON);
 		PENDING_MENU = MENU[c];
+		/* C08: a query that could not be sent must be followed by a wait, not by the next query at once */
+		if (is_prop("C08") && MON.send_just_failed && MON.t_send_failed == ENV.now) {
+			violation("requery-without-wait", "after a query could not be sent the client sends the next query without having slept or let time pass: it loops without letting time advance");
+			MON.send_just_failed = false;
+		}
+		MON.send_just_failed = false;
 		if (PENDING_MENU == RS_SENDFAIL) {
 			PENDING_MENU = -1;
+			MON.send_just_failed = true;
+			MON.t_send_failed = ENV.now;
 			ev("client:%s -> send-fails", pdu_type_name(p[1]));
 			return TR_ERROR;
 		}
@@ -1042,8 +1052,10 @@ static int hook_recv_empty(size_t want, time_t timeout)
 
 static void hook_sleep(unsigned int secs)
 {
-	if (secs > 0)
+	if (secs > 0) {
 		MON.open_just_failed = false;
+		MON.send_just_failed = false;
+	}
 	cont_check_bound();
 	if (is_prop("C13") && MON.expect_fast_reconnect) {
 		violation("downgrade-reconnect-not-immediate",
